@@ -2127,7 +2127,7 @@ func runC16(args []string) error {
 	}
 
 	// ------------------------------------------------------------ B. end to end
-	nMain, nFile, nErr, nRegion := 220, 80, 25, 10
+	nMain, nFile, nErr, nRegion := 200, 60, 25, 10
 	if thorough {
 		nMain, nFile, nErr, nRegion = 6000, 2000, 500, 250
 		// VERIF_C16_SCALE=<percent> shrinks the thorough tier (to try the pipeline on a busy machine)
@@ -2161,7 +2161,7 @@ func runC16(args []string) error {
 		if thorough {
 			progs = append(progs, g.cycleMatrix(4, 0)...)
 		} else {
-			progs = append(progs, g.cycleMatrix(2, 5)...)
+			progs = append(progs, g.cycleMatrix(2, 4)...)
 		}
 	}
 	{
